@@ -219,4 +219,15 @@ theorem checked_constructor (c : Constructor) (p : Str × Str) (h : c.render = .
 example : ({ ret := { fqn := { ids := [L "void"] } }, name := L "f", pfx := .virtual, init := L "0", scope := some (L "S") } : Function).render.isOk = true := by decide
 example : ({ ret := { fqn := { ids := [L "void"] } }, name := L "f", init := L "0" } : Function).render.isOk = false := by decide
 
+/-- the text of a rendered pure-virtual declaration starts with `virtual ` -/
+theorem pure_specifier_is_virtual (f : Function) (p : Str × Str) (h : f.render = .ok p)
+    (h0 : (L "0").isPrefixOf f.init = true) (hb : Spec.breakFree f.declText = true) :
+    (L "virtual ").isPrefixOf p.1 = true := by
+  obtain ⟨_, _, hv, hp⟩ := checked_function f p h
+  obtain ⟨hpfx, _⟩ := hv h0
+  subst hp
+  simp only
+  rw [decl_shape f hb, hpfx]
+  simp [FnPrefix.str, List.isPrefixOf]
+
 end C20
